@@ -12,7 +12,7 @@ from ..engine import cfg as cfgmod, typestate
 from ..engine.facts import dotted, const, src, walk_func, enclosing_stmt, ancestors
 from . import skeletons as sk
 from ..engine import pattern as P
-from .common import calls, stmt_nodes, norm_successors, contains, raise_names, pn, access_paths, assigned_from, arms, branch_paths
+from .common import calls, stmt_nodes, norm_successors, contains, raise_names, pn, access_paths, assigned_from, arms, branch_paths, guards_of
 from . import c16  # render-isolation is registered there for C13 as well
 
 DEF_CONSTRUCTS = ["write_render_callable", "write_inline_def"]
@@ -225,9 +225,15 @@ def handlers(ctx):
     hs = [h for n in walk_func(inc) if isinstance(n, ast.Try) for h in n.handlers]
     ctx.require(hs, "_include_file has no except clause (anchor)")
     h = hs[0]
-    res_assign = [s for s in ast.walk(h) if isinstance(s, ast.Assign) and "include_error_handler" in src(s.value)]
-    ifs = [s for s in h.body if isinstance(s, ast.If)]
-    ok = bool(res_assign) and any(isinstance(i.test, ast.UnaryOp) and isinstance(i.test.op, ast.Not) and src(i.test.operand) == src(res_assign[0].targets[0]) and any(isinstance(r, ast.Raise) and r.exc is None for r in i.body) for i in ifs)
+    # the handler's verdict: a local holding it, or the call itself
+    verdicts = {src(s.targets[0]) for s in ast.walk(h) if isinstance(s, ast.Assign) and "include_error_handler" in src(s.value)}
+    verdicts |= {src(c_) for c_ in ast.walk(h) if isinstance(c_, ast.Call) and (dotted(c_.func) or "").endswith(".include_error_handler")}
+    bare = [r for r in ast.walk(h) if isinstance(r, ast.Raise) and r.exc is None]
+    ok = bool(bare) and all(any((v_, False) in guards_of(r, h) for v_ in verdicts) for r in bare)
+    # ... and nothing else ends the handler on the falsy path
+    for p_ in branch_paths(h.body):
+        if any(p_.holds(v_, False) for v_ in verdicts) and not (isinstance(p_.exit, ast.Raise) and p_.exit.exc is None):
+            ok = False
     ctx.check(ok, "include.reraise", db.where(h), "include_error_handler returning a falsy value does not re-raise the original exception with a bare `raise`", "`if not result: raise`")
     ctx.check(h.type is not None and src(h.type) == "Exception", "include.catches", db.where(h), "include handler catches %s" % (src(h.type) if h.type else "everything"), "catches Exception only")
     ex = db.func("runtime._exec_template")
